@@ -39,6 +39,18 @@ impl<'a> LogosLexer<'a> {
     ensures encode_utf8(r@) == self.rem()
   { unimplemented!() }
 
+  /// the bytes of the token logos has just produced (they end at the current offset); an error token
+  /// never contains a newline (whitespace has been skipped before and is never part of a token)
+  uninterp spec fn cur_len(&self) -> int;
+  #[verifier::external_body]
+  fn slice(&self) -> (r: &'a str)
+    requires self.inv()
+    ensures
+      0 <= self.cur_len() <= self.off(),
+      encode_utf8(r@) == self.src().subrange(self.off() - self.cur_len(), self.off()),
+      forall|i: int| self.off() - self.cur_len() <= i < self.off() ==> self.src()[i] != 10u8,
+  { unimplemented!() }
+
   #[verifier::external_body]
   fn bump(&mut self, n: usize)
     requires old(self).inv(), n <= old(self).rem().len(), is_boundary(old(self).rem(), n as int),
@@ -103,6 +115,10 @@ pub assume_specification[ u8::is_ascii_whitespace ](c: &u8) -> (r: bool)
   ensures r == is_ws(*c);
 pub open spec fn is_ws(c: u8) -> bool { c == 0x20 || c == 0x09 || c == 0x0A || c == 0x0C || c == 0x0D }
 
+// Trusted std contracts missing from vstd
+pub assume_specification[ String::len ](s: &String) -> (r: usize)
+  ensures r == encode_utf8(s@).len();
+
 // R3 stubs for str / String helpers that vstd does not specify.  Patterns are ASCII, so matching
 // the pattern at the start of the str is matching its bytes.
 #[verifier::external_body]
@@ -114,6 +130,13 @@ fn str_starts_with_byte(s: &str, c: u8) -> (b: bool)
 fn str_starts_with_2bytes(s: &str, c1: u8, c2: u8) -> (b: bool)
   requires c1 < 0x80, c2 < 0x80
   ensures b == (encode_utf8(s@).len() >= 2 && encode_utf8(s@)[0] == c1 && encode_utf8(s@)[1] == c2)
+{ unimplemented!() }
+/// `&s[..n]` on a str: panics unless n is in range and on a char boundary
+/// (std: `is_char_boundary(n)` = n == len or byte n is not a continuation byte 10xxxxxx)
+#[verifier::external_body]
+fn str_prefix(s: &str, n: usize) -> (r: &str)
+  requires n <= encode_utf8(s@).len(), is_boundary(encode_utf8(s@), n as int)
+  ensures encode_utf8(r@) == encode_utf8(s@).subrange(0, n as int)
 { unimplemented!() }
 /// `String::from_utf8_lossy(bytes).trim().to_string()` — total on every byte slice
 #[verifier::external_body]
@@ -385,6 +408,61 @@ impl<'a> WrappedLogosLexer<'a> {
       lemma_pos_bounds(s, o + comment_length);
       lemma_pos_monotone(s, o, o + comment_length);
     }
+//@end
+
+  /// the tracked position is the position of the start of the token logos has just produced
+  spec fn pos_at_token_start(&self) -> bool {
+    &&& self.lexer.inv()
+    &&& self.position.0 == line_of(self.lexer.src(), self.lexer.off() - self.lexer.cur_len())
+    &&& self.position.1 == col_of(self.lexer.src(), self.lexer.off() - self.lexer.cur_len())
+  }
+
+// R14: the error-token resynchronisation block of `next_token` (the arm `Err(()) => { .. }`), from its
+// first statement up to and including the bump; `next_token` itself also drives logos, the heap and
+// the error set and is not extracted.
+//@extractblock crates/samlang-parser/src/lexer.rs :: impl<'a> WrappedLogosLexer<'a> / fn next_token
+//@from let start = self.position;
+//@to self.lexer.bump(skip_count);
+//@wrap fn resync_after_error_token(&mut self)
+//@replace &self.lexer.remainder()[..skip_count] => str_prefix(self.lexer.remainder(), skip_count) ## R3: str slicing `&s[..n]` with std's documented panic condition (range, char boundary) as precondition
+//@contract
+    requires
+      old(self).pos_at_token_start(),
+    ensures
+      final(self).pos_ok(),                                                    // :position_tracks_consumed_offset
+      final(self).lexer.src() == old(self).lexer.src(),
+      old(self).lexer.off() <= final(self).lexer.off(),                        // :only_moves_forward
+      forall|i: int| old(self).lexer.off() <= i < final(self).lexer.off() ==> !is_ws(old(self).lexer.src()[i]),  // :stops_at_the_first_whitespace
+      final(self).module_reference == old(self).module_reference,
+//@after let mut content = self.lexer.slice().to_string();
+        proof {
+          let s0 = old(self).lexer.src(); let o = old(self).lexer.off(); let n = old(self).lexer.cur_len();
+          assert(encode_utf8(content@).len() == n);
+          lemma_advance_no_newline(s0, o - n, n);
+          lemma_pos_bounds(s0, o);
+        }
+//@loop 0 iter=it
+          invariant_except_break
+            skip_count == it.index(),
+          invariant
+            self.lexer == old(self).lexer, self.module_reference == old(self).module_reference,
+            old(self).lexer.inv(),
+            it.seq().len() == old(self).lexer.rem().len(),
+            forall|j: int| 0 <= j < it.seq().len() ==> *(#[trigger] it.seq()[j]) == old(self).lexer.rem()[j],
+            0 <= skip_count <= old(self).lexer.rem().len(),
+            forall|i: int| 0 <= i < skip_count ==> !is_ws(#[trigger] old(self).lexer.rem()[i]),
+          ensures
+            skip_count == old(self).lexer.rem().len() || is_ws(old(self).lexer.rem()[skip_count as int]),
+//@before content.push_str(&self.lexer.remainder()[..skip_count]);
+        proof {
+          let s0 = old(self).lexer.src(); let o = old(self).lexer.off();
+          // an ASCII whitespace byte (or the end) is a char boundary
+          assert(is_boundary(old(self).lexer.rem(), skip_count as int));
+          assert forall|i: int| o <= i < o + skip_count implies s0[i] != 10u8 by { assert(!is_ws(old(self).lexer.rem()[i - o])); }
+          lemma_advance_no_newline(s0, o, skip_count as int);
+          lemma_pos_bounds(s0, o + skip_count);
+          assert forall|i: int| o <= i < o + skip_count implies !is_ws(s0[i]) by { assert(!is_ws(old(self).lexer.rem()[i - o])); }
+        }
 //@end
 }
 
